@@ -50,6 +50,23 @@ def finish(prop, tier, seed, obligations, undecided, notes, vr, kr, wall, write_
     violations = []
     known_lines = []
     kani_meta = None
+    # A Verus failure comes without a counterexample: it cannot tell a broken
+    # function from a lost proof hint. Where a *complete* Kani lemma states the
+    # same contract for all inputs and is discharged in this very run, the
+    # function still satisfies the contract: the failure is proof brittleness
+    # (UNDECIDED), not a violation.
+    units = verus_backend.load_units()
+    ok_kani = {o.name.split("::")[-1] for o in obligations
+               if o.backend.startswith("kani") and o.status == "discharged" and o.kind == "complete"}
+    for ob in obligations:
+        if ob.status == "failed" and ob.backend.startswith("verus"):
+            unit = ob.name.split("/")[1]
+            fn = ob.name.split("/")[-1].split("::")[-1]
+            h = units.get(unit, {}).get("paired_complete", {}).get(fn)
+            if h and h in ok_kani:
+                ob.status = "undecided"
+                undecided.append(f"{ob.name}: Verus proof not found, but the complete Kani lemma {h} of the "
+                                 f"same contract holds: lost proof, not a violation ({ob.detail[0][:120]})")
     # Kani failures first: they come with replayable counterexamples
     for ob in sorted(obligations, key=lambda o: 0 if o.backend.startswith("kani") else 1):
         if ob.status != "failed":
